@@ -361,6 +361,22 @@ def check_case(case):
                 custom = [k for k in keys[len(spec):]]
                 if case.get("custom") and not case.get("toplevel_ext") and custom != sorted(custom):
                     fails.append(("pretty-order:custom-unsorted", "custom keys not sorted: %s" % custom))
+    # (6) every option set writes the object's PRESENT state: list values can be edited in place (the guide's "immutability issues" say so);
+    #     after such an edit -- made on a copy, and after the texts were asked for once -- pretty and plain output still denote one value
+    o2, exc = core.guarded(copy.deepcopy, obj)
+    if exc is None:
+        editable = sorted(k for k in o2 if isinstance(o2[k], list) and o2[k] and isinstance(o2[k][0], str))
+        if editable:
+            k = editable[0]
+            for kw in ({"pretty": True}, {"pretty": True, "include_optional_defaults": True}, {}):
+                core.guarded(o2.serialize, **kw)
+            o2[k].append(o2[k][0])
+            for iod in (False, True):
+                a, e1 = core.guarded(o2.serialize, pretty=True, include_optional_defaults=iod)
+                b, e2 = core.guarded(o2.serialize, include_optional_defaults=iod)
+                if e1 is None and e2 is None and json.loads(a) != json.loads(b):
+                    fails.append(("options-change-value:after-in-place-edit", "after %s.append(...) on a copy, pretty and plain output (include_optional_defaults=%s) differ: %s vs %s" % (
+                        k, iod, core.short(json.loads(a).get(k), 200), core.short(json.loads(b).get(k), 200))))
     # de-duplicate keys
     seen, out = set(), []
     for k, d in fails:
